@@ -214,11 +214,44 @@ def _corrupt(draw):
         if r is MU.INAPPLICABLE:
             r = MU.apply(doc, {"path": path, "op": "replace:%d" % draw(st.integers(0, len(MU.REPLACEMENTS) - 1))})
         args[name] = r
-    return {"which": base["which"], "args": args, "corrupted": name, "how": how}
+    return {"which": base["which"], "args": args, "corrupted": name, "how": how, "base_args": dict(base["args"])}
+
+
+def _prime_same_objects(case, f, kwargs):
+    """History: the container arguments are first used in their VALID state - validated, built with, verified against -
+    and then changed in place into the corrupted value (same objects), as an editing session on the next version would."""
+    base = case.get("base_args")
+    if not base:
+        return
+    valid_kwargs = {k: GP.realize(v) for k, v in base.items() if v != OMIT}
+    for k, v in kwargs.items():
+        good = valid_kwargs.get(k)
+        if isinstance(v, dict) and isinstance(good, dict) or isinstance(v, list) and isinstance(good, list):
+            bad = copy.deepcopy(v)
+            if isinstance(v, dict):
+                v.clear()
+                v.update(copy.deepcopy(good))
+            else:
+                v[:] = copy.deepcopy(good)
+            try:
+                if isinstance(v, dict):
+                    C.checkformat_delegations(v)
+                    env = {"signatures": {}, "signed": GM.signed_part("root", v, version=1)}
+                    C.checkformat_delegating_metadata(env)
+                    RV.outcome(A.verify_delegation, "root", copy.deepcopy(env), env)
+                f(**dict(valid_kwargs, **{k: v}))
+            except Exception:
+                pass
+            if isinstance(v, dict):
+                v.clear()
+                v.update(bad)
+            else:
+                v[:] = bad
 
 
 def check_corrupt(case):
     f, kwargs, given = _invoke(case["which"], case["args"])
+    _prime_same_objects(case, f, kwargs)
     kind, r = _call(f, kwargs)
     if kind == "raise":
         return {"nontrivial": True, "labels": ["raised", "arg=" + case["corrupted"], "how=" + case["how"]]}
@@ -291,5 +324,5 @@ UNITS = [
     Unit("chain", check_chain, strategy=_chains, quick=300, thorough=10000,
          essential=["rotated"], doc="builder -> signer -> verifier: three-link root chains and key_mgr delegation"),
     _cfgunit.unit_under_config(PROPERTY, 'valid', exclude=('PYTHONWARNINGS', 'TZ')),
-    _cfgunit.unit_under_config(PROPERTY, 'corrupt', exclude=('PYTHONWARNINGS',)),
+    _cfgunit.unit_under_config(PROPERTY, 'corrupt', exclude=('PYTHONWARNINGS',), closed_stdout=True, n_cases=30),
 ]
